@@ -524,7 +524,9 @@ class Lowerer:
             f.outside = 'no definition in this TU'
             return f
         saved = (self.cur, self._tmpn, getattr(self, 'locals', None), getattr(self, 'used', None))
+        saved_iters = getattr(self, 'iter_inits', {})
         self.cur, self._tmpn, self.locals, self.used = f, 0, {}, used
+        self.iter_inits = {}
         try:
             body = []
             if fk == 'ctor':
@@ -537,6 +539,7 @@ class Lowerer:
             f.body = body
         finally:
             self.cur, self._tmpn, self.locals, self.used = saved
+            self.iter_inits = saved_iters
         return f
 
     def _type_known(self, t):
@@ -846,7 +849,12 @@ class Lowerer:
             return out
         if t[0] == 'ostream':
             return [('decl', nm, lt, None)]
-        return [('decl', nm, lt, self.rv(e))]
+        v = self.rv(e)
+        if t[0] == 'iter' and 'const' in c.get('type', {}).get('qualType', '') and v[0] == 'lib' and v[2] == 'table_find':
+            # a const iterator initialised by TABLE.find(k): uses of the name denote that lookup (needed to resolve the
+            # std::function row called through it)
+            self.iter_inits[nm] = v
+        return [('decl', nm, lt, v)]
 
     # ------------------------------------------------------------------ expressions
     def lv(self, n):
@@ -1458,6 +1466,8 @@ class Lowerer:
                 raise Unsupported('std::map member %s' % name)
             if base_t[0] == 'fn' and name == 'operator()':
                 fv = self.rv(b) if kind == 'L' else self.deref(b)
+                if fv[0] == 'lib' and fv[2] == 'iter_second' and fv[3][0][0] == 'var' and fv[3][0][2] in getattr(self, 'iter_inits', {}):
+                    fv = (fv[0], fv[1], fv[2], [self.iter_inits[fv[3][0][2]]] + list(fv[3][1:]))
                 if fv[0] == 'lib' and fv[2] == 'iter_second' and fv[3][0][0] == 'lib' and fv[3][0][2] == 'table_find':
                     tbl, key = fv[3][0][3]
                     T = self.get_tables()
